@@ -23,7 +23,7 @@ import (
 // not model (unsupported: callee outside allow-list: runtime/trace.StartRegion).
 // Until it does, the harness evaluates a verbatim copy of the function body
 // without that one line. Set to true once StartRegion/(*Region).End are stubbed.
-const c05UseRealEvaluateCondition = false
+const c05UseRealEvaluateCondition = true
 
 func c05EvaluateCondition(cond sql.Expression, row sql.Row) (interface{}, error) {
 	if c05UseRealEvaluateCondition {
@@ -223,5 +223,12 @@ func VerifC05ValueRowFilter() {
 	nd.Assert("c05.valuerow.no-error", nd.And(ok, err == nil))
 	keepV := len(res.Val) > 0 && res.Val[0] == 1
 	nd.Observe(keep, keepV)
+	// Defect class of the known finding (known_findings.txt): `>=` / `<=` with a
+	// NULL operand on the value-row path. Those cells assert under their own id
+	// so that the recorded finding masks nothing else.
+	if op >= 2 && (row[0] == nil || row[1] == nil) {
+		nd.Assert("c05.valuerow.same-rows-kept.null-operand-ge-le", keep == keepV)
+		return
+	}
 	nd.Assert("c05.valuerow.same-rows-kept", keep == keepV)
 }
